@@ -223,6 +223,9 @@ fn generate_service_file(service: &mut SystemdUnitFile) -> io::Result<()> {
 
     service.write_to(&mut writer)?;
 
+    // a BufWriter that is merely dropped discards the error of its final flush
+    writer.flush()?;
+
     Ok(())
 }
 
